@@ -135,7 +135,7 @@ func boundCells(x *Ctx) {
 								allocated = true
 							}
 							if s, ok := in.(*ssa.Store); ok {
-								if at := c.Term(s.Addr); at != nil && at.Op == "alloc" && at.Val == ssa.Value(a) && !idempotentRenormalisation(c.Term(s.Val)) {
+								if at := c.Term(s.Addr); at != nil && at.Op == "alloc" && at.Val == ssa.Value(a) && !idempotentRenormalisation(c.Term(s.Val)) && !selfRenormalisation(s) {
 									written = x.P.Pos(s.Pos())
 								}
 							}
@@ -180,6 +180,31 @@ func boundCells(x *Ctx) {
 
 // idempotentRenormalisation: v = f(x, consts...) with f one of the idempotent methods of time.Time and x a plain
 // value (the variable itself), so that applying the store twice gives what applying it once gave.
+// selfRenormalisation: *p = (*p).Round(c) and the like: the cell is rewritten with an idempotent function of its own
+// content, whatever that content was computed from.
+func selfRenormalisation(s *ssa.Store) bool {
+	c, ok := s.Val.(*ssa.Call)
+	if !ok || len(c.Call.Args) == 0 {
+		return false
+	}
+	h := c.Call.StaticCallee()
+	if h == nil || h.Pkg == nil || h.Pkg.Pkg.Path() != "time" {
+		return false
+	}
+	switch h.Name() {
+	case "Round", "Truncate", "UTC", "Local":
+	default:
+		return false
+	}
+	for _, a := range c.Call.Args[1:] {
+		if _, isC := a.(*ssa.Const); !isC {
+			return false
+		}
+	}
+	u, ok := c.Call.Args[0].(*ssa.UnOp)
+	return ok && u.X == s.Addr
+}
+
 func idempotentRenormalisation(v *paths.Term) bool {
 	if v == nil || v.Op != "call" || len(v.Args) == 0 {
 		return false
